@@ -52,14 +52,17 @@ pub fn install_quiet_panic_hook() {
 
 /// Run one decoded case through the property's oracles. Err(msg) = the harness itself panicked.
 pub fn run_one(spec: &PropSpec, case: &Case) -> Result<SeqOutcome, String> {
+    if let Some(runner) = spec.runner {
+        return catch_unwind(AssertUnwindSafe(|| runner(spec, case))).map_err(|p| format!("harness panic: {}", crate::world::classify_panic(p).text()));
+    }
     let mut oracles = (spec.make)();
-    let r = catch_unwind(AssertUnwindSafe(|| run_seq(case, &mut oracles, &SeqOpts { stop_early: false })));
+    let r = catch_unwind(AssertUnwindSafe(|| run_seq(case, &mut oracles, &SeqOpts { stop_early: false, fault: None })));
     r.map_err(|p| format!("harness panic: {}", crate::world::classify_panic(p).text()))
 }
 
 pub fn run_prop(spec: &PropSpec, cases: u32, seed: u64, replay_dir: &str, known: &[String]) -> Summary {
     let t0 = std::time::Instant::now();
-    let mut sum = Summary { property: spec.id.into(), engine: "seq".into(), seed, ..Default::default() };
+    let mut sum = Summary { property: spec.id.into(), engine: spec.engine.into(), seed, ..Default::default() };
     let mut seed_bytes = [0u8; 32];
     let mut st = seed ^ 0x5EED_0000_0000_0000;
     for chunk in seed_bytes.chunks_mut(8) {
@@ -91,6 +94,8 @@ pub fn run_prop(spec: &PropSpec, cases: u32, seed: u64, replay_dir: &str, known:
         nsteps: u64,
         excluded_known: u64,
         known_counts: BTreeMap<String, u64>,
+        extra_evals: u64,
+        counters: BTreeMap<String, u64>,
     }
     let st = std::cell::RefCell::new(St::default());
 
@@ -135,6 +140,10 @@ pub fn run_prop(spec: &PropSpec, cases: u32, seed: u64, replay_dir: &str, known:
         }
         st.ncases += 1;
         st.nsteps += out.steps_run as u64;
+        st.extra_evals += out.extra_evals;
+        for (k, v) in &out.counters {
+            *st.counters.entry(k.to_string()).or_default() += v;
+        }
         let h = case.hash();
         st.distinct.insert(h);
         for l in &out.labels {
@@ -158,8 +167,14 @@ pub fn run_prop(spec: &PropSpec, cases: u32, seed: u64, replay_dir: &str, known:
         Ok(())
     });
 
-    let St { nontrivial, distinct, labels, mut samples, harness_error, ncases, nsteps, excluded_known, known_counts, .. } = st.into_inner();
+    let St { nontrivial, distinct, labels, mut samples, harness_error, ncases, nsteps, excluded_known, known_counts, extra_evals, counters, .. } = st.into_inner();
     sum.extra.insert("excluded_known".into(), excluded_known);
+    if extra_evals > 0 {
+        sum.extra.insert("extra_evaluations".into(), extra_evals);
+    }
+    for (k, v) in counters {
+        sum.extra.insert(k, v);
+    }
     for (k, v) in known_counts {
         sum.extra.insert(format!("known:{k}"), v);
     }
@@ -191,7 +206,7 @@ pub fn run_prop(spec: &PropSpec, cases: u32, seed: u64, replay_dir: &str, known:
                 sum.violations = out.violations.clone();
                 let rp = Replay {
                     property: spec.id.into(),
-                    engine: "seq".into(),
+                    engine: spec.engine.into(),
                     seed,
                     tape: tape.clone(),
                     case,
